@@ -35,6 +35,12 @@ type C07Scenario struct {
 	// Compress: every file is stored compressed under its name + "." + Compress
 	// (gz | zst | ""), and the glob carries the same suffix
 	Compress string `json:"compress,omitempty"`
+	// Color: terminal colours on; the oracle reads the output with the ANSI
+	// escape sequences removed
+	Color bool `json:"color,omitempty"`
+	// LogLevel of the client: its own diagnostics share the output stream (and
+	// the pooled string builders) with the records
+	LogLevel string `json:"log_level,omitempty"`
 }
 
 func c07Line(file, n, plen int) string {
@@ -127,6 +133,8 @@ func c07Gen(r *Rand, tier string, i int) Scenario {
 			sc.Net.ConnLatency[h] = PickOf(r, 0, 0, 1, 10, 100)
 		}
 	}
+	sc.Color = r.Bool(0.3)
+	sc.LogLevel = PickOf(r, "", "", "debug", "trace")
 	if r.Bool(0.3) {
 		sc.Stalls = append(sc.Stalls, StallSpec{Name: "consumer.uniform", Site: siteStdoutLock, Suffix: "/lock", From: 0, To: -1, DurMs: 1})
 	}
@@ -144,7 +152,7 @@ func c07Run(t *testing.T, s Scenario, src verifsim.DecisionSource, keep bool) *R
 		for i, f := range sc.Files {
 			w.WriteFile(f.Path, compress(sc.Compress, sc.content(i)))
 		}
-		spec := ReadSpec{Kind: sc.Kind, Transport: "ssh", Hosts: sc.Hosts, Plain: false, NoColor: true, Files: []string{sc.Glob}}
+		spec := ReadSpec{Kind: sc.Kind, Transport: "ssh", Hosts: sc.Hosts, Plain: false, NoColor: !sc.Color, LogLevel: sc.LogLevel, Files: []string{sc.Glob}}
 		if sc.Kind == "grep" {
 			spec.Regex = "^S:"
 		}
@@ -175,6 +183,9 @@ func c07Run(t *testing.T, s Scenario, src verifsim.DecisionSource, keep bool) *R
 	if proc.Panic != "" {
 		res.Class, res.Message = "client-panic", proc.Panic
 		return res
+	}
+	if sc.Color {
+		stdout = sgrRe.ReplaceAll(stdout, nil)
 	}
 	if cls, msg := c07Oracle(sc, stdout); cls != "" {
 		res.Class, res.Message = cls, msg
@@ -268,7 +279,7 @@ func c07Shape(s Scenario) string {
 			nonl++
 		}
 	}
-	return fmt.Sprintf("%s/h%d/%s/%s/cats%d/lat%v/chunk%d/nonl%d", sc.Kind, len(sc.Hosts), sc.Glob, strings.Join(sz, ","), sc.Cfg.MaxCats, sc.Net.ConnLatency, sc.Net.ChunkMax, nonl)
+	return fmt.Sprintf("%s/color=%v%s/h%d/%s/%s/cats%d/lat%v/chunk%d/nonl%d", sc.Kind, sc.Color, sc.LogLevel, len(sc.Hosts), sc.Glob, strings.Join(sz, ","), sc.Cfg.MaxCats, sc.Net.ConnLatency, sc.Net.ChunkMax, nonl)
 }
 
 func c07Sample(s Scenario) any {
@@ -277,7 +288,7 @@ func c07Sample(s Scenario) any {
 	for _, f := range sc.Files {
 		fs = append(fs, map[string]any{"path": f.Path, "id": f.ID, "lines": len(f.Lens), "no_final_newline": f.NoFinalNL})
 	}
-	return map[string]any{"kind": sc.Kind, "hosts": sc.Hosts, "glob": sc.Glob, "files": fs, "max_cats": sc.Cfg.MaxCats, "net": sc.Net, "stalls": sc.Stalls, "sched": sc.Sched}
+	return map[string]any{"kind": sc.Kind, "hosts": sc.Hosts, "glob": sc.Glob, "files": fs, "max_cats": sc.Cfg.MaxCats, "color": sc.Color, "net": sc.Net, "stalls": sc.Stalls, "sched": sc.Sched}
 }
 
 func c07Shrink(s Scenario) []Scenario {
@@ -328,6 +339,16 @@ func c07Shrink(s Scenario) []Scenario {
 	n := cl()
 	n.Net = verifsimnet.Profile{}
 	out = append(out, n)
+	if sc.Color {
+		n := cl()
+		n.Color = false
+		out = append(out, n)
+	}
+	if sc.LogLevel != "" {
+		n := cl()
+		n.LogLevel = ""
+		out = append(out, n)
+	}
 	n3 := cl()
 	n3.Sched = SchedProfile{Mode: "fifo"}
 	out = append(out, n3)
@@ -338,7 +359,7 @@ func init() {
 	Register(&Prop{
 		ID:    "C07",
 		Level: "exploration",
-		Rule: "seeded generation of non-plain dcat/dgrep sessions against 1-5 simulated dservers (distinct host names) reading 1-4 files through globs with '*' in " +
+		Rule: "seeded generation of non-plain dcat/dgrep sessions (30% with terminal colours, read with the escape sequences removed; unterminated last lines; gzip/zstd sources) against 1-5 simulated dservers (distinct host names) reading 1-4 files through globs with '*' in " +
 			"different path components, tagged lines of 0-60000 bytes (longer than one SSH packet and than the 32 KiB copy buffer), per-server link latency, " +
 			"network chunking, MaxConcurrentCats 1-3, consumer pacing; non-trivial = at least one line and several hosts or files; distinct = (scenario shape, schedule hash)",
 		Real: []string{"internal/clients (one handler per connection)", "internal/server x N (real SSH servers)", "internal/server/handlers (makeGlobID, Read framing)",
